@@ -892,7 +892,7 @@ class RecordValidator(_ToTupleValidator[Ret]):
             self._fast_keys_async.append((key, _wrap_async_validator(val), is_required))
             self._key_set.add(key)
 
-        self._unknown_keys_err: ExtraKeysErr = ExtraKeysErr(self._key_set)
+        self._unknown_keys_err: ExtraKeysErr = ExtraKeysErr(set(self._key_set))
 
     def _validate_to_tuple(self, data: Any) -> _ResultTuple[Ret]:
         if self._disallow_synchronous:
